@@ -205,8 +205,24 @@ class Trace:
         # capacities as configured (from the generated case), not as the buffer object reports
         hu = sp['hot_capacity'] - bs['hot_free']
         cu = sp['cold_capacity'] - bs['cold_free']
+        n_ing = sum(1 for o in self.obs.values()
+                    if o['ingest_enter'] is not None and o['ingest_exit'] is None)
+        if n_ing > getattr(self, 'max_ingesting', 0):
+            self.max_ingesting = n_ing
         if bs['hot_free'] < -EPS or bs['hot_free'] > sp['hot_capacity'] + EPS:
-            self.violate('C07', 'hot_bounds', free=bs['hot_free'], total=sp['hot_capacity'])
+            # mechanism predicates: did every admission individually have room, and did two
+            # ingests overlap (free space at admission ignores data still to arrive)?
+            self.violate('C07', 'hot_bounds', free=bs['hot_free'], total=sp['hot_capacity'],
+                         below_zero=bool(bs['hot_free'] < -EPS),
+                         admissions_had_room=not any(
+                             v['prop'] == 'C07' and v['clause'].startswith('admitted_without')
+                             for v in self.viol),
+                         ingests_overlapped=getattr(self, 'max_ingesting', 0) >= 2,
+                         deposits_as_specified=not any(
+                             v['prop'] == 'C07' and v['clause'] in ('deposit_amount',
+                                                                    'too_many_deposits',
+                                                                    'deposit_outside_ingest')
+                             for v in self.viol))
         if bs['cold_free'] < -EPS or bs['cold_free'] > sp['cold_capacity'] + EPS:
             self.violate('C07', 'cold_bounds', free=bs['cold_free'], total=sp['cold_capacity'])
         sh = sum(self.H.values())
